@@ -217,12 +217,15 @@ operations unless already present -/
 def addChanges (changes : List (Nat × Nat)) (T : Nat) (ops : List OpEntry) : List (Nat × Nat) :=
   ops.foldl (fun ch e => if ch.contains (T, e.cls) then ch else ch ++ [(T, e.cls)]) changes
 
-/-- `create_association_versions`: each pending statement becomes a row stamped `T`; the
-association version table's primary key is (link columns, transaction id) -/
+/-- `create_association_versions`: each pending statement becomes a row stamped `T`.  An
+association that changes more than once within the transaction keeps only its last change: the
+row of the same link and transaction, if any, is deleted first (one row per link per
+transaction).  The Boolean (an `IntegrityError`) is kept for the signature; it is never set since
+the repair of finding F-M2M. -/
 def addAssoc (a : List ARow) (T : Nat) (pending : List (Nat × Op × List Int)) : List ARow × Bool :=
   pending.foldl (fun (acc : List ARow × Bool) p =>
-    let dup := acc.1.any (fun r => r.tbl = p.1 ∧ r.link = p.2.2 ∧ r.tx = T)
-    (acc.1 ++ [{ tbl := p.1, link := p.2.2, tx := T, op := p.2.1 }], acc.2 || dup)) (a, false)
+    ((acc.1.filter (fun r => !(r.tbl = p.1 ∧ r.link = p.2.2 ∧ r.tx = T))) ++
+      [{ tbl := p.1, link := p.2.2, tx := T, op := p.2.1 }], acc.2)) (a, false)
 
 /-! ## Ghost: the live rows implied by the mapper events -/
 
